@@ -1,5 +1,7 @@
 import BddProofs.Count
+import BddProofs.TotalQuery
 import BddProofs.CountCor
+import BddProofs.CountStrong
 import BddProofs.Init
 /-! # C13 — `sat_count` is the exact number of satisfying assignments
 
@@ -8,12 +10,13 @@ import BddProofs.Init
 Purity: `satCount fuel s f n : Except Fault Nat` takes the state and returns only a number. -/
 namespace P
 
-/-- the procedure (memo per signed handle, complement by subtraction from `2^n`) returns the
-semantic count, for every `n` at least as large as every variable in the store -/
-theorem C13_sat_count {n fuel s f φ c} (hg : Good s)
-    (hV : ∀ i nn, s.nodes i = some nn → nn.var ≤ n)
-    (v : Valid s.nodes f φ) (h : satCount fuel s f n = .ok c) : c = count φ n :=
-  satCount_top_spec hg hV v h
+/-- for every function `f` whose variables lie in `1..n` (`SuppLt φ (n+1)`: `φ` depends only on variables
+`≤ n`; variable 0 is never used), the procedure (memo per signed handle, `(lo + hi) / 2`, complement by
+subtraction from `2^n`) returns exactly the number of assignments to `n` variables that satisfy `f` —
+whatever else the manager stores -/
+theorem C13_sat_count {n fuel s f φ c} (hg : Good s) (v : Valid s.nodes f φ) (hs : SuppLt φ (n + 1))
+    (h : satCount fuel s f n = .ok c) : c = count φ n :=
+  satCount_spec_strong hg v hs h
 
 /-- `count(f) + count(NOT f) = 2^n` -/
 theorem C13_complement (φ : Fn) (n : Nat) : count φ n + count (fun e => !φ e) n = 2 ^ n := count_compl φ n
@@ -27,6 +30,11 @@ theorem C13_unused_variable {φ : Fn} {n : Nat}
     (h : ∀ e e' : Env, (∀ w, w < n + 1 → e w = e' w) → φ e = φ e') : count φ (n + 1) = 2 * count φ n :=
   count_extend h
 
+/-- it always returns (no assertion, no fuel exhaustion) — and returns the count -/
+theorem C13_sat_count_total {fuel : Nat} {s : St} {n : Nat} {f : Ref} {φ : Fn} (hg : Good s)
+    (v : Valid s.nodes f φ) (hV : VarsLe s n) (hfuel : lv s n f < fuel) :
+    satCount fuel s f n = .ok (count φ n) := satCount_total_correct hg v hV hfuel
+
 /-- non-vacuity -/
 example : satCount 3 s4 Ref.one 5 = .ok 32 ∧ Good s4 := ⟨by rfl, s4_good⟩
 
@@ -35,3 +43,4 @@ end P
 #print axioms P.C13_complement
 #print axioms P.C13_inclusion_exclusion
 #print axioms P.C13_unused_variable
+#print axioms P.C13_sat_count_total
